@@ -4,7 +4,6 @@ CONSTANTS
   Readers = {r1, r2}
   MaxWrites = 3
   MaxCkpt = 3
-  MaxReaderStarts = 3
   ReaderPoints = {"idle", "check", "compact", "sqlite", "classify", "finish"}
   CanonicalPages = FALSE
   DisarmOnTruncate = TRUE
@@ -14,4 +13,5 @@ CONSTANTS
   CancelOnError = TRUE
   BusyKeepsState = TRUE
 SYMMETRY ReaderSym
+VIEW MCView
 INVARIANTS RebuildOK NoSegmentAfterFailure ResetDetected NoSpuriousReset NoRecapture ArmedSane SegWellFormed TypeOK
